@@ -112,6 +112,15 @@ func c19Fuzzer(seed int64) *fuzz.Fuzzer {
 			*t = metav1.NewMicroTime(time.Unix(int64(c.Intn(2000000000)), int64(c.Intn(1000000))*1000).UTC())
 		},
 		func(d *metav1.Duration, c fuzz.Continue) { d.Duration = time.Duration(c.Intn(100000)) * time.Second },
+		// plain scalars are left at their zero value (= unset, to be defaulted) a third of the time, so that
+		// neighbouring fields are set and unset independently (a probe with a timeout but no period, ...)
+		func(i *int32, c fuzz.Continue) {
+			if c.Intn(3) == 0 {
+				*i = 0
+			} else {
+				*i = int32(c.Intn(1 << 30))
+			}
+		},
 		// optional scalars: nil, pointer to the zero value (explicitly set to 0 / false / ""), or a random value
 		func(p **int64, c fuzz.Continue) {
 			switch c.Intn(4) {
